@@ -121,9 +121,14 @@ func (f *Formatter) formatBackendProperties(props []*ast.BackendProperty, nestLe
 			Operator: " = ",
 		}
 		if po, ok := prop.Value.(*ast.BackendProbeObject); ok {
-			line.Value = "{\n"
+			// comments of the probe object: after "=", before and after the closing brace
+			line.Value = f.formatComment(po.Leading, " ", 0) + "{\n"
 			line.Value += f.formatBackendProperties(po.Values, nestLevel+1)
+			line.Value += f.formatComment(po.Infix, "\n", nestLevel+1)
 			line.Value += f.indent(nestLevel) + "}"
+			if len(prop.Trailing) == 0 {
+				line.Trailing = f.trailing(po.Trailing)
+			}
 			// probe property is object, semicolon is not needed
 			line.isObject = true
 		} else {
